@@ -410,6 +410,39 @@ def shift_width(facts, res, R="C15.4.shift-width", roots_only=False):
             n_seen += 1
             if not NARROW.match(lt):
                 n_wide += 1
+                # a 64-bit shift is wide enough for a level (x Dim): not for a level multiplied by another quantity that varies
+                if m is None and tbf.body(fn) is not None:
+                    m = stages.FnModel(facts, fn)
+                if m is not None:
+                    amt = strip(b)
+                    for _ in range(4):
+                        d_ = m.decls.get(amt.get("did")) if amt.get("k") == "DeclRefExpr" else None
+                        if d_ is not None and kids(d_) and "const" in d_.get("t", "") and amt.get("did") not in m.loop_vars:
+                            amt = strip(kids(d_)[0])
+                        else:
+                            break
+
+                    def varies(e):
+                        for z in walk(e):
+                            if z.get("k") in ("MemberExpr", "CXXDependentScopeMemberExpr", "CallExpr", "CXXMemberCallExpr"):
+                                return True
+                            if z.get("k") == "DeclRefExpr" and z.get("dk") in ("Var", "ParmVar") and not (z.get("staticmember") and (z.get("t") or "").startswith("const ")) \
+                                    and not (m.decls.get(z.get("did")) or {}).get("constexpr"):
+                                return True
+                        return False
+                    for z in walk(amt):
+                        if z.get("k") == "BinaryOperator" and z.get("op") == "*":
+                            l_, r_ = kids(z)
+                            for p_, q_ in ((l_, r_), (r_, l_)):
+                                why_ = _runtime_amount(m, p_)
+                                if why_ is not None and varies(q_):
+                                    hits += 1
+                                    res.violation(R, path, fn["qname"], "%s:%s" % (fn["name"], facts.ntext(x)), x["l"][1],
+                                                  "the amount of `%s` is the product of the run-time quantity `%s` and `%s`, which varies too: a level (times the dimension) stays below 64, a level times another varying quantity does not - the shift is undefined from amount 64 on (and wraps on x86)" % (facts.ntext(x), why_, facts.ntext(q_)[:40]))
+                                    break
+                            else:
+                                continue
+                            break
                 continue
             if m is None:
                 if tbf.body(fn) is not None:
